@@ -60,6 +60,11 @@ type realm struct {
 	// Used by close() to wait for sessions to exit.
 	waitHandlers sync.WaitGroup
 
+	// Sessions whose handler exited because of realm shutdown. Their peers
+	// are closed by close() once broker and dealer have stopped.
+	shutdownSessions []*wamp.Session
+	shutdownLock     sync.Mutex
+
 	// Session meta-procedure registration ID -> handler map.
 	metaProcMap map[wamp.ID]func(*wamp.Invocation) wamp.Message
 	metaDone    chan struct{}
@@ -217,6 +222,14 @@ func (r *realm) close() {
 	// No new messages, so safe to close dealer and broker.
 	r.dealer.close()
 	r.broker.close()
+
+	// Nothing can be routed to the sessions any more; close their peers.
+	r.shutdownLock.Lock()
+	for _, sess := range r.shutdownSessions {
+		sess.Close()
+	}
+	r.shutdownSessions = nil
+	r.shutdownLock.Unlock()
 
 	// Finally close realm's action channel.
 	close(r.actionChan)
@@ -427,7 +440,17 @@ func (r *realm) handleSession(sess *wamp.Session, welcome *wamp.Welcome) error {
 			}
 		}
 		r.onLeave(sess, shutdown, killAll)
-		sess.Close()
+		if shutdown {
+			// At shutdown the session is not removed from broker and dealer,
+			// and handlers of other sessions may still route messages to it.
+			// Its peer must stay open until broker and dealer have stopped;
+			// close() closes it then.
+			r.shutdownLock.Lock()
+			r.shutdownSessions = append(r.shutdownSessions, sess)
+			r.shutdownLock.Unlock()
+		} else {
+			sess.Close()
+		}
 		r.waitHandlers.Done()
 	}()
 
